@@ -196,30 +196,37 @@ Definition created_ok (t t' : tree) (p : list str) : bool :=
 (* ---------- the three clauses of C17 ---------- *)
 Definition no_stopped (t : tree) : bool := forallb (fun q => negb (qstate_eqb (q_state q) QStopped)) t.
 
-Definition placed_ok_b (w : world) (a : app) (p : list str) (w' : world) : bool :=
-  let t := w_tree w in let t' := w_tree w' in
-  let is_rec := path_eqb p recovery_parts in
-  (* in a leaf queue that is not draining (Active unless the hierarchy held a Stopped queue, a state
-     no production code path gives to a queue); forced placement in the recovery queue checks nothing *)
+(* (1) in a leaf queue that is not draining (Active unless the hierarchy held a Stopped queue, a
+   state no production code path gives to a queue); forced placement in the recovery queue checks
+   nothing *)
+Definition in_leaf_b (t t' : tree) (p : list str) : bool :=
   match get_parts t' p with
   | Some q => q_leaf q
-              && (is_rec || negb (qstate_eqb (q_state q) QDraining)
-                            && (if no_stopped t then qstate_eqb (q_state q) QActive else true))
+              && (path_eqb p recovery_parts
+                  || negb (qstate_eqb (q_state q) QDraining)
+                     && (if no_stopped t then qstate_eqb (q_state q) QActive else true))
   | None => false
-  end
-  (* chosen by the first rule, in configured order, that yields a queue the application can use *)
-  && existsb (fun i => match chosen_at t a (w_rules w) i with
-                       | Some n => path_eqb (name_parts n) p
-                       | None => false
-                       end) (seq 0 (length (w_rules w)))
-  (* admitted by an ACL on the way to the root; the recovery queue only by force-create *)
-  && (if is_rec then forced a else acl_admitted t' a p)
-  (* an existing queue was a leaf and not draining and the hierarchy is unchanged; a new queue was
-     created properly *)
-  && match get_parts t p with
-     | Some q => q_leaf q && (is_rec || negb (qstate_eqb (q_state q) QDraining)) && unchanged t t'
-     | None => created_ok t t' p
-     end.
+  end.
+(* (2) chosen by the first rule, in configured order, that yields a queue the application can use *)
+Definition first_rule_b (t : tree) (a : app) (rs : list rule) (p : list str) : bool :=
+  existsb (fun i => match chosen_at t a rs i with
+                    | Some n => path_eqb (name_parts n) p
+                    | None => false
+                    end) (seq 0 (length rs)).
+(* (3) admitted by an ACL on the way to the root; the recovery queue only by force-create *)
+Definition acl_b (t' : tree) (a : app) (p : list str) : bool :=
+  if path_eqb p recovery_parts then forced a else acl_admitted t' a p.
+(* (4) an existing queue was a leaf and not draining and the hierarchy is unchanged; a new queue
+   was created properly *)
+Definition tree_b (t t' : tree) (p : list str) : bool :=
+  match get_parts t p with
+  | Some q => q_leaf q && (path_eqb p recovery_parts || negb (qstate_eqb (q_state q) QDraining)) && unchanged t t'
+  | None => created_ok t t' p
+  end.
+
+Definition placed_ok_b (w : world) (a : app) (p : list str) (w' : world) : bool :=
+  in_leaf_b (w_tree w) (w_tree w') p && first_rule_b (w_tree w) a (w_rules w) p
+  && acl_b (w_tree w') a p && tree_b (w_tree w) (w_tree w') p.
 
 Definition recovery_only_forced_b (a : app) (p : list str) : bool :=
   if is_prefix recovery_parts p then forced a && path_eqb p recovery_parts else true.
@@ -230,10 +237,11 @@ Definition unmatched_b (w : world) (a : app) : bool :=
 
 (* hierarchies are closed under taking the parent (what the children maps of the Go queues give)
    and contain the root queue *)
+Definition parent_ok (t : tree) (q : queue) : bool :=
+  match q_path q with
+  | [] => false
+  | [x] => str_eqb x s_root
+  | p => match find_q t (removelast p) with Some _ => true | None => false end
+  end.
 Definition wf_tree (t : tree) : bool :=
-  (match find_q t [s_root] with Some _ => true | None => false end)
-  && forallb (fun q => match q_path q with
-                       | [] => false
-                       | [x] => str_eqb x s_root
-                       | p => match find_q t (removelast p) with Some _ => true | None => false end
-                       end) t.
+  (match find_q t [s_root] with Some _ => true | None => false end) && forallb (parent_ok t) t.
